@@ -226,7 +226,7 @@ void ClockDevice::doLoop(int opIndex, Verdict& v, Coverage& cov) {
   // An answer that was already ready at an earlier call and was ignored then is a different matter (below).
   if (readValid && !sent && sync.phase == SyncModel::IDLE && sync.after == SyncModel::FAILURE && timeoutSnapshotValid
       && readyAtBefore > prevLoopT) {
-    sync = syncBeforeTimeout;
+    { int64_t keepPolled = sync.polled; sync = syncBeforeTimeout; sync.polled = keepPolled; }
     timeoutSnapshotValid = false;
     cov.count("probe.timeout_taken_back");
   }
@@ -287,7 +287,7 @@ void ClockDevice::doLoop(int opIndex, Verdict& v, Coverage& cov) {
     else if (readyBefore) ev = "ready-unread";
     else if (late) ev = "timeout";
     else ev = "waiting";
-  } else ev = now >= sync.dueExpect ? (now > sync.dueMax ? "overdue" : "due") : "before-due";
+  } else ev = now >= sync.dueExpect ? (sync.polled > sync.dueMax ? "overdue" : "due") : "before-due";
   if (readValid && late) ev = "race-read";
   {
     int lvl = sync.failStreak > 6 ? 6 : sync.failStreak;
@@ -300,7 +300,7 @@ void ClockDevice::doLoop(int opIndex, Verdict& v, Coverage& cov) {
   if (sync.phase == SyncModel::IDLE) {
     if (sentNow) {
       onSend();
-    } else if (now > sync.dueMax) {
+    } else if (sync.polled > sync.dueMax) {
       // counted only once simulated time has moved past the deadline: several loop() calls may fall into the very
       // millisecond of the deadline, and an implementation whose comparisons are strict makes no progress in them
       sync.overdue++;
@@ -309,9 +309,9 @@ void ClockDevice::doLoop(int opIndex, Verdict& v, Coverage& cov) {
       // property, so the bound is generous. Defects that delay a request by seconds exceed it in any densely
       // polled run.
       if (sync.overdue > kMaxIdleCallsPastDeadline) {
-        v.fail("c14-liveness", fmt("t=%lld ms: the latest admissible time for the next request was "
-            "%lld ms; %d loop() calls since then sent nothing", (long long)now,
-            (long long)sync.dueMax, sync.overdue), opIndex);
+        v.fail("c14-liveness", fmt("t=%lld ms: the next request is %lld ms of polled time past the bound (one largest "
+            "period after the event that started the wait); %d loop() calls since then sent nothing", (long long)now,
+            (long long)(sync.polled - sync.dueMax), sync.overdue), opIndex);
       }
     }
   } else {  // WAITING
@@ -325,7 +325,7 @@ void ClockDevice::doLoop(int opIndex, Verdict& v, Coverage& cov) {
       sync.phase = SyncModel::IDLE; sync.after = SyncModel::SUCCESS;
       sync.dueMin = sync.start + (int64_t)cfg.sync * 1000;
       sync.dueExpect = now + (int64_t)cfg.sync * 1000;
-      sync.dueMax = now + sync.maxPeriodMs();
+      sync.dueMax = sync.polled + sync.maxPeriodMs();
       sync.overdue = 0;
       if (sync.failStreak > 0 || sawFail) sawFailThenSuccess = true;
       sync.failStreak = 0; sync.successes++;
@@ -406,6 +406,7 @@ bool ClockDevice::exec(const std::vector<std::string>& toks, int opIndex, Verdic
   } else if (op == "GET" || op == "LOOP") {
     // wrap / gap accounting (between consecutive polls)
     int64_t gap = t - lastPollT;
+    if (opts.armC14 && gap >= 0 && gap <= KeepModel::kMaxGap) sync.polled += gap;
     uint64_t c0 = boot + (uint64_t)lastPollT, c1 = boot + (uint64_t)t;
     bool x16 = (c0 >> 16) != (c1 >> 16), x32 = (c0 >> 32) != (c1 >> 32);
     if (x16) cov.count("fault.wrap16");
@@ -445,12 +446,17 @@ bool ClockDevice::exec(const std::vector<std::string>& toks, int opIndex, Verdic
     // budget: outstanding request may still have to time out, then the longest admissible
     // period, then the final request's latency (10 ms); counted in loop() calls, not wall time
     int calls = 0;
-    while (sync.successes < target && calls < 28 && !v.violated) {
+    // steps of at most 60 s, so that all of the drain is polled time; the budget in calls follows from that
+    const int budget = (int)((sync.maxPeriodMs() + cfg.tmo) / 60000) + 40;
+    while (sync.successes < target && calls < budget && !v.violated) {
       int64_t dl = sync.nextDeadline(t, ref.outstanding ? ref.readyAt : SimRefClock::kNever);
-      if (dl > t + 70000000) dl = t + 70000000;
-      if (dl > t) advance(dl - t, cov);
-      else advance(1, cov);   // the deadline is now or past: let one millisecond go by between calls
+      int64_t step = dl - t;
+      if (step > 60000) step = 60000;
+      if (step < 1) step = 1;   // the deadline is now or past: let one millisecond go by between calls
+      advance(step, cov);
+      sync.polled += step;
       doLoop(opIndex, v, cov);
+      lastPollT = t;
       calls++;
     }
     cov.count("c14.drains");
@@ -459,7 +465,7 @@ bool ClockDevice::exec(const std::vector<std::string>& toks, int opIndex, Verdic
           "the model's deadlines over %lld simulated ms produced no successful sync",
           (long long)t0, calls, (long long)(t - t0)), opIndex);
     }
-    int64_t bound = sync.maxPeriodMs() + cfg.tmo + 1000 + 28;
+    int64_t bound = sync.maxPeriodMs() + cfg.tmo + 1000 + 40;
     if (!v.violated && t - t0 > bound) {
       v.fail("c14-liveness-final", fmt("successful sync only %lld ms after faults stopped; bound is %lld",
           (long long)(t - t0), (long long)bound), opIndex);
